@@ -127,6 +127,11 @@ def gen_malformed(rng, n):
             prog, _ = splgen.well_typed_program(rng, ndecls=rng.randrange(1, 4))
             toks = splgen.damage(splgen.flatten(prog), rng, k=rng.choice([1, 1, 1, 2, 3, 6]))
             out.append(("damaged", splgen.render(toks, rng, newline=rng.choice(["\n", "\n", "\r\n", "\r"])), None))
+        elif r < 0.5:
+            # documents without any declaration: comments, blank lines, nothing
+            parts = [rng.choice(["// c\n", "// \u00e9\u20ac x\r\n", "//\n", "\n", "  ", "\t\r\n", "// last line without a line end"])
+                     for _ in range(rng.randrange(0, 5))]
+            out.append(("soup", "".join(parts), None))
         elif r < 0.8:
             out.append(("soup", splgen.token_soup(rng), None))
         else:
